@@ -101,6 +101,7 @@ def reverseRows (dataW w : Nat) : Nat → Nat → List Nat → VRes (List Nat)
 
 /-- `NewPlanarYUVLuminanceSource(yuvData, dataWidth, dataHeight, left, top, width, height, reverseHorizontal)` -/
 def newYUV (data : List Nat) (dataW dataH : Nat) (left top : Int) (w h : Nat) (rev : Bool) : VRes View :=
+  -- (Go also rejects `width < 0 || height < 0`; sizes are naturals here, see `cropI`)
   if left < 0 ∨ top < 0 ∨ left + w > dataW ∨ top + h > dataH then villegal
   else
     let l := left.toNat
@@ -164,7 +165,7 @@ def getMatrix (v : View) : VRes (List Nat) := do
 
 /-! ## Crop, Invert, Rotate -/
 
-/-- `Crop(left, top, width, height)` (sizes are non-negative in the model).  RGB / Go-image: the
+/-- `Crop(left, top, width, height)` for non-negative sizes (`cropI` below covers negative ones).  RGB / Go-image: the
     rectangle must lie inside the current view.  YUV: the same test, then the constructor's own test
     against the data.  The wrapper forwards and re-wraps. -/
 def crop (v : View) (l t : Int) (w h : Nat) : VRes View :=
@@ -175,6 +176,10 @@ def crop (v : View) (l t : Int) (w h : Nat) : VRes View :=
       let n ← newYUV v.data v.dataW v.dataH (v.left + l) (v.top + t) w h false
       .ok { n with inv := v.inv }
     | _ => .ok { v with left := v.left + l.toNat, top := v.top + t.toNat, w := w, h := h }
+
+/-- `Crop` with Go `int` sizes: a negative width or height is an IllegalArgumentException (same test) -/
+def cropI (v : View) (l t w h : Int) : VRes View :=
+  if w < 0 ∨ h < 0 then villegal else crop v l t w.toNat h.toNat
 
 /-- `Invert()`: wrap, or unwrap a wrapper -/
 def invert (v : View) : View := { v with inv := !v.inv }
